@@ -25,7 +25,7 @@ theorem eof_iff_nan (s : St NumI) (w : World) (hlines : ∀ l ∈ w.stdin, l ≠
       simp only [hin] at h
       have hl : line ≠ [] := hlines line (by simp [hin])
       cases line with
-      | nil => exact absurd rfl hl
+      | nil => cases h
       | cons c cs =>
         simp only [popRaw, setStack, ↓reduceIte, lineStack_eq, List.map_cons, Except.ok.injEq, Prod.mk.injEq] at h
         rw [← h.1]
@@ -36,12 +36,24 @@ theorem eof_iff_nan (s : St NumI) (w : World) (hlines : ∀ l ∈ w.stdin, l ≠
     have := hst y (by simp [hs])
     simp [this]
 
-/-- reading never fails: a pop from stack 0 always succeeds (there is no exit and no error on input) -/
-theorem pop0_total (s : St NumI) (w : World) : ∃ x m', popWrap (s, w) 0 = .ok (x, m') := by
+/-- reading decodable input never fails: a pop from stack 0 always succeeds (there is no exit and no error on
+input); an empty list in `stdin` stands for a line that is not UTF-8 and is excluded here -/
+theorem pop0_total (s : St NumI) (w : World) (hlines : ∀ l ∈ w.stdin, l ≠ []) : ∃ x m', popWrap (s, w) 0 = .ok (x, m') := by
   unfold popWrap
   simp only [↓reduceIte]
   split
-  · split <;> exact ⟨_, _, rfl⟩
+  · cases hin : w.stdin with
+    | nil => exact ⟨_, _, rfl⟩
+    | cons line rest =>
+      cases line with
+      | nil => exact absurd rfl (hlines [] (by simp [hin]))
+      | cons c cs => exact ⟨_, _, rfl⟩
   · exact ⟨_, _, rfl⟩
+
+/-- a line that is not UTF-8 ends the run with the input-error stop the first time the program reads it -/
+theorem pop0_undecodable (s : St NumI) (w : World) (rest : List (List Char)) (hs : s.stacks 0 = []) (hw : w.stdin = [] :: rest) :
+    popWrap (s, w) 0 = .error (.inputErr, w) := by
+  unfold popWrap
+  simp only [↓reduceIte, hs, List.isEmpty_nil, hw]
 
 end HyE
